@@ -105,6 +105,28 @@ def search(npts: int, seed: int, rep: Report) -> List[Dict[str, Any]]:
             if gx.shape != x.shape:
                 bad.append({"what": f"{name}_grad does not have the shape of x", "case": {"fn": name, "x": list(x)}})
                 break
+            # the same point in other legitimate forms — a list, a tuple, a strided view, a read-only array — gives the same value and gradient
+            forms = {"list": [float(v) for v in x], "tuple": tuple(float(v) for v in x)}
+            wide = np.zeros(2 * n)
+            wide[::2] = x
+            forms["strided view"] = wide[::2]
+            ro = x.copy()
+            ro.setflags(write=False)
+            forms["read-only array"] = ro
+            form_bad = None
+            for fname_, xf in forms.items():
+                try:
+                    fv, gv = f(xf), np.asarray(g(xf), dtype=float)
+                except Exception as ex:  # noqa: BLE001
+                    form_bad = f"{fname_}: raises {type(ex).__name__}"
+                    break
+                if gv.shape != gx.shape or fhex(float(fv)) != fhex(float(fx)) or vhex(gv) != vhex(gx):
+                    form_bad = f"{fname_}: value or gradient differs from the one on an array (gradient shape {gv.shape})"
+                    break
+            if form_bad is not None:
+                bad.append({"what": f"{name} / {name}_grad depends on the form in which the point is given ({form_bad})",
+                            "case": {"fn": name, "x": [float(v) for v in x], "form": form_bad.split(":")[0]}})
+                break
             same = buffer_ok(f, g, x, bufs.setdefault((name, n), np.empty(n)))
             if not same:
                 bad.append({"what": f"{name} / {name}_grad is not a function of x: the value depends on the array object reused by the caller "
@@ -215,6 +237,16 @@ def replay(path: str) -> int:
         return 1
     x = np.array(c["x"])
     f, g = getattr(lbfgsb, c["fn"]), getattr(lbfgsb, c["fn"] + "_grad")
+    if c.get("form"):
+        xl = [float(v) for v in x]
+        try:
+            gl = np.asarray(g(xl) if c["form"] != "tuple" else g(tuple(xl)), dtype=float)
+            ok = gl.shape == x.shape and np.array_equal(gl, np.asarray(g(x.copy())))
+        except Exception as ex:  # noqa: BLE001
+            print("replay raises", type(ex).__name__)
+            ok = False
+        print("replay", c["fn"], "gradient on a", c["form"], "equals the one on an array:", ok)
+        return 0 if ok else 1
     if c.get("buffer"):
         b = np.empty(x.size)
         b[:] = x + 3.0
